@@ -1813,7 +1813,7 @@ func main() {
 				k.qCase(id("ninv", i), "ninv", u), k.kCase(id("ninv", i), "ninv", u),
 				k.qCase(id("nscale", i), "nscale", u, sc), k.kCase(id("nscale", i), "nscale", u, sc),
 				k.qCase(id("noise", i), "noise", u), k.kCase(id("noise", i), "noise", u))
-			cases = append(cases, k.textbookCase(id("tb", i)+"p", x, u, false), k.textbookCase(id("tb", i)+"s", y, v, true))
+			cases = append(cases, k.textbookCase(id("tb", i)+"p", bmod(x, k.N), u, false), k.textbookCase(id("tb", i)+"s", bmod(y, k.N), v, true))
 		}
 	}
 	// key-size floors and factor checks with the stored primes
